@@ -244,7 +244,7 @@ def c19_replay_file(sp, n, msg):
     for line in open(sp):
         if line.startswith('O '):
             head.append(line.rstrip('\n'))
-        elif line[:2] in ('C ', 'G '):
+        elif line[:2] in ('C ', 'G ', 'X ', 'H '):
             k += 1
             if k == n:
                 body = line.rstrip('\n')
@@ -279,7 +279,7 @@ def run_c19(tier, seed, replay=None):
         sp = os.path.join(work, 'replay-000.txt')
         lines = [l for l in open(replay) if not l.startswith('#')]
         open(sp, 'w').write(''.join(lines))
-        n = sum(1 for l in lines if l[:2] in ('C ', 'G '))
+        n = sum(1 for l in lines if l[:2] in ('C ', 'G ', 'X ', 'H '))
         gens.append(dict(name='replay', cases=n, shards=[(sp, n)], wall=0, states=n, sample=None))
     else:
         cfs = c19_configs(tier, seed)
